@@ -11,12 +11,19 @@ Proof. induction l as [|v l IH]; intro i; cbn [expand_from map snd]; [reflexivit
 Lemma expand_from_length : forall e l i, length (expand_from e i l) = length l.
 Proof. induction l as [|v l IH]; intro i; cbn [expand_from length]; [reflexivity|]. f_equal. apply IH. Qed.
 
-Lemma has_postcompile_false : forall inp n, has_postcompile inp = false -> In n (i_order inp) -> kind_of inp n = Plain.
+Lemma has_postcompile_false0 : forall inp n, has_postcompile inp = false -> In n (i_order inp) -> kind_of inp n = Plain.
 Proof.
   intros inp n H Hn. unfold has_postcompile in H.
   destruct (kind_of inp n) eqn:K; [reflexivity| |];
     (assert (existsb (fun n => negb (is_plain (kind_of inp n))) (i_order inp) = true);
      [apply existsb_exists; exists n; split; [exact Hn|rewrite K; reflexivity]|congruence]).
+Qed.
+
+(* when the post-compile step is skipped every bind is plain *)
+Lemma has_postcompile_false : forall tab inp n, wf tab inp -> i_pc inp = false -> In n (i_order inp) -> kind_of inp n = Plain.
+Proof.
+  intros tab inp n W H Hn. apply has_postcompile_false0; [|exact Hn].
+  destruct (has_postcompile inp) eqn:E; [|reflexivity]. rewrite (w_haspc _ _ W E) in H. discriminate.
 Qed.
 
 Section Named.
@@ -107,7 +114,7 @@ Proof.
   pose proof (numeric_positional ps Hps) as Hnum.
   unfold run, compile. rewrite Hnum, Hps. cbn [bind c_toks c_positiontup].
   change (carrier tab ps (i_toks inp)) with (map (ctok tab ps bnamed) (i_toks inp)).
-  destruct (has_postcompile inp) eqn:HP.
+  destruct (i_pc inp) eqn:HP.
   - unfold postcompile. rewrite Hps. cbn [c_toks].
     destruct (pc_loop tab lit empty_expr ps inp W order (incl_refl _)) as [st [E I]].
     unfold init_state in E. rewrite E. cbn [bind].
@@ -122,7 +129,7 @@ Proof.
     + intro n. exact Logic.I.
     + intros n Hn. destruct (w_pc _ _ W n Hn) as [A B]. exact (v_repl_in _ _ _ _ _ _ _ I n A B).
   - assert (Hno : forall n, ~ In (PC n) (i_toks inp)).
-    { intros n Hn. destruct (w_pc _ _ W n Hn) as [A B]. apply B. exact (has_postcompile_false inp n HP A). }
+    { intros n Hn. destruct (w_pc _ _ W n Hn) as [A B]. apply B. exact (has_postcompile_false tab inp n W HP A). }
     rewrite <- (no_pc_final tab lit empty_expr ps inp bnamed (i_toks inp) Hno).
     destruct (named_tokens [] (init_state inp) (i_toks inp) (Inv_init tab lit empty_expr ps inp W)) as [sp [S1 S2]].
     + exact (w_bind _ _ W).
